@@ -152,3 +152,87 @@ def gemv_oracle(chk, cid, prog, eff, p, cfgname):
             ex.check(lf, not up, 'alpha-zero-skips-product', ['alpha'], 'alpha = 0: A and x must not contribute to y', up[0]['line'] if up else None)
     rejected_spellings(ex, f, leaves, ('trans',), {'trans': 'N n T t C c'})
     return len(leaves)
+
+
+def conjugate_branch_rule(chk, cid, prog, cfgname):
+    """The branch of sp_{c,z}trsv / sp_{c,z}gemv that serves trans = 'C' works with conj(A'): every matrix element it reads in scalar code has
+    to be conjugated first (zz_conj / cc_conj into a temporary, or `.i` read through a unary minus), and the dense kernels it calls receive
+    the caller's trans flag.  An element of Lval / Uval / Aval handed to a multiply or divide directly makes the branch compute with A' for
+    that element - invisible for real data and for real right-hand sides.  The rule inspects the else-branch that follows the test for "T"."""
+    from ..facts import strip, callee_name, canon, loc, root_ref
+    from ..ir import pretty
+    from ..run import AnalysisBroken
+    chk.clause(cid, 'the conjugate-transpose branch conjugates every matrix element it uses in scalar arithmetic')
+    MATS = {'Lval', 'Uval', 'Aval'}
+    CONJ = {'zz_conj', 'cc_conj', 'd_cnjg', 'r_cnjg'}
+    n = 0
+    for fname in ('sp_ctrsv', 'sp_ztrsv', 'sp_cgemv', 'sp_zgemv'):
+        f = prog.func(fname)
+        if f is None:
+            raise AnalysisBroken('%s not found' % fname)
+        chk.saw(unit=f.unit, func=f.unit + ':' + f.name)
+        branch = None
+        for x in f.body.walk():
+            if x.k == 'If' and len(x.c) > 2 and x.c[2] is not None and x.c[2].k != 'If':
+                t = canon(x.c[0], ids=False)
+                if 'strncmp(trans' in t.replace(' ', '') and '"T"' in t:
+                    branch = x.c[2]
+        if branch is None:
+            raise AnalysisBroken('%s: the branch behind the test for "T" was not found' % fname)
+        # macro-expanded conjugations: a Block that reads X.r and -X.i of the same element
+        ok_nodes = set()
+        for b in branch.walk():
+            if b.k == 'Block':
+                idx = [y for y in b.walk() if y.k == 'Index' and root_ref(y) is not None and root_ref(y).a.get('name') in MATS]
+                neg = [y for y in b.walk() if y.k == 'Unary' and y.a['op'] == '-' and any(z.k == 'Member' and z.a.get('name') == 'i' and any(
+                    w.k == 'Index' and root_ref(w) is not None and root_ref(w).a.get('name') in MATS for w in z.walk()) for z in y.walk())]
+                stmts_ = [s_ for s_ in b.c]
+                if idx and neg and len(stmts_) <= 3 and all(strip(s_).k == 'Assign' for s_ in stmts_):
+                    for y in idx:
+                        ok_nodes.add(id(y))
+        # hand-written conjugation spread over two statements of one block:  t.r = A[i].r;  t.i = -A[i].i;
+        for b in branch.walk():
+            if b.k != 'Block':
+                continue
+            negd = set()
+            for st_ in b.c:
+                for y in st_.walk():
+                    if y.k == 'Unary' and y.a['op'] == '-':
+                        for z in y.walk():
+                            if z.k == 'Member' and z.a.get('name') == 'i' and strip(z.c[0]).k == 'Index':
+                                negd.add(canon(strip(z.c[0]), ids=False))
+            if not negd:
+                continue
+            for st_ in b.c:
+                if strip(st_).k != 'Assign':
+                    continue
+                for z in st_.walk():
+                    if z.k == 'Member' and z.a.get('name') == 'r' and strip(z.c[0]).k == 'Index' and canon(strip(z.c[0]), ids=False) in negd:
+                        ok_nodes.add(id(strip(z.c[0])))
+        for x in branch.walk():
+            if x.k == 'Call' and callee_name(x) in CONJ:
+                for y in x.walk():
+                    if y.k == 'Index':
+                        ok_nodes.add(id(y))
+            if x.k == 'Call' and (callee_name(x) or '').lower().rstrip('_').endswith(('trsv', 'gemv', 'trsm', 'gemm')) and callee_name(x) not in ('sp_ctrsv',):
+                for y in x.walk():
+                    if y.k == 'Index':
+                        ok_nodes.add(id(y))      # dense kernels get the transpose flag
+            if x.k == 'Unary' and x.a['op'] == '-':
+                for y in x.walk():
+                    if y.k == 'Index':
+                        ok_nodes.add(id(y))
+        for x in branch.walk():
+            if x.k == 'Index' and root_ref(x) is not None and root_ref(x).a.get('name') in MATS and strip(x.c[0]).k == 'Ref':
+                n += 1
+                inst = '%s:conjugated-element@%d' % (fname, n)
+                # reads of .r next to a negated .i of the same element text are part of a hand-written conjugation
+                if id(x) in ok_nodes:
+                    chk.ok(cid, inst, sample=pretty(x)[:30], nontrivial=True)
+                else:
+                    chk.violate(cid, inst, loc(f, x), fname,
+                                '`%s` is used un-conjugated in the trans = C branch of %s: for this element the routine computes with the plain transpose instead of the conjugate transpose, '
+                                'which is wrong as soon as the element has an imaginary part' % (pretty(x)[:40], fname), cfgname=cfgname)
+    if n < 6:
+        raise AnalysisBroken('%s: %d matrix elements found in the conjugate branches, floor 6' % (cid, n))
+    return n
